@@ -22,7 +22,7 @@ func alphabet() []string {
 		"regpipe t1 p1 n1,n2,n3", "regpipe t1 p2 n2,n4", "regpipe t2 p1 n2,n3", "regpipe t3 p1 n1,n2,n4",
 		"regpipe t1 p3 n2,n3", "regpipe t1 p4 n2,n2,n3",
 		"rmpipe t1 p1", "rmpipenodes t2 p1", "rmpipe t3 p1", "rmpipenodes t1 p2",
-		"reopen", "reopenfail n1", "reopenfail n2", "reopenfail n3", "reopenfail n4",
+		"reopen", "reopenx", "reopenfail n1", "reopenfail n2", "reopenfail n3", "reopenfail n4",
 	}
 }
 
@@ -43,10 +43,16 @@ func extra(r *hn.Reg, f []string) (bool, string, string) {
 		}
 	}
 	switch f[0] {
-	case "reopen":
-		err := r.B.Reopen(context.Background())
+	case "reopen", "reopenx":
+		// reopenx: the caller's context is already cancelled; the property is not conditional on it
+		ctx, cancel := context.WithCancel(context.Background())
+		if f[0] == "reopenx" {
+			cancel()
+		}
+		err := r.B.Reopen(ctx)
+		cancel()
 		if err != nil {
-			return true, "", fmt.Sprintf("Reopen with no failing node returned %v", err)
+			return true, "", fmt.Sprintf("%s: Reopen with no failing node returned %v", f[0], err)
 		}
 		var missed []string
 		for o := range inChain {
@@ -56,7 +62,7 @@ func extra(r *hn.Reg, f []string) (bool, string, string) {
 		}
 		if len(missed) > 0 {
 			sort.Strings(missed)
-			return true, "", fmt.Sprintf("Reopen returned nil but never invoked Reopen on %v, which registered pipelines %s contain", missed, r.ModelKey())
+			return true, "", fmt.Sprintf(f[0]+": Reopen returned nil but never invoked Reopen on %v, which registered pipelines %s contain", missed, r.ModelKey())
 		}
 		return true, "reopened", ""
 	case "reopenfail":
@@ -126,7 +132,7 @@ var harness = &seqmc.Harness{
 func main() {
 	_ = strings.Join
 	hk.Main(seqmc.Check(harness,
-		"BFS over all registry histories up to the depth bound on 3 event types with shared nodes (RegisterNode, RegisterPipeline, RemovePipeline, RemovePipelineAndNodes); in every reached state: Reopen with no failing node must return nil and have invoked Reopen on every node object of every registered pipeline; with all objects of one node id failing (each node id in turn) it must return an error for which errors.Is(err, thatNode'sError) holds iff a registered pipeline contains such an object. The iteration order over the event types' graphs and over sync.Map.Range is an explored permutation for the Reopen step.",
+		"BFS over all registry histories up to the depth bound on 3 event types with shared nodes (RegisterNode, RegisterPipeline, RemovePipeline, RemovePipelineAndNodes); in every reached state: Reopen with no failing node (with a live and with an already-cancelled context) must return nil and have invoked Reopen on every node object of every registered pipeline; with all objects of one node id failing (each node id in turn) it must return an error for which errors.Is(err, thatNode'sError) holds iff a registered pipeline contains such an object. The iteration order over the event types' graphs and over sync.Map.Range is an explored permutation for the Reopen step.",
 		[]string{"depth 7 (quick) / 9 (thorough); 3 event types, 4 node ids, 6 pipeline definitions incl. pipelines sharing a leading node and one listing a node twice"},
 		150*time.Second, 45*time.Minute))
 }
